@@ -4,11 +4,11 @@ set -u
 S=$1; P=${2:-${S%_*}}
 cd /verif
 if ! git -C /repo diff --quiet HEAD; then echo "/repo not clean"; exit 2; fi
-if git -C /repo apply --check seeded/$S/patch.diff 2>/dev/null; then
-  git -C /repo apply seeded/$S/patch.diff
-elif git -C /repo apply -3 seeded/$S/patch.diff >/dev/null 2>&1; then
+if git -C /repo apply --check /verif/seeded/$S/patch.diff 2>/dev/null; then
+  git -C /repo apply /verif/seeded/$S/patch.diff
+elif git -C /repo apply -3 /verif/seeded/$S/patch.diff >/dev/null 2>&1; then
   git -C /repo reset -q
-  git -C /repo diff > seeded/$S/patch.diff   # rebased onto the current HEAD
+  git -C /repo diff > /verif/seeded/$S/patch.diff   # rebased onto the current HEAD
   echo "(patch rebased)"
 else
   echo "PATCH-DOES-NOT-APPLY $S"; git -C /repo checkout HEAD -- .; exit 3
